@@ -394,9 +394,8 @@ inline constexpr void Conversion<Unit::MassRate, Unit::MassRate::PoundPerHour>::
 }
 
 template <typename NumericType>
-inline const std::map<Unit::MassRate,
-                      std::function<void(NumericType* values, const std::size_t size)>>
-    MapOfConversionsFromStandard<Unit::MassRate, NumericType>{
+inline constexpr auto MapOfConversionsFromStandard<Unit::MassRate, NumericType>{
+  MakeConversionTable<Unit::MassRate, NumericType>({
       {Unit::MassRate::KilogramPerSecond,
        Conversions<Unit::MassRate, Unit::MassRate::KilogramPerSecond>::FromStandard<NumericType>},
       {Unit::MassRate::GramPerSecond,
@@ -427,12 +426,12 @@ inline const std::map<Unit::MassRate,
        Conversions<Unit::MassRate, Unit::MassRate::SlinchPerHour>::FromStandard<NumericType>    },
       {Unit::MassRate::PoundPerHour,
        Conversions<Unit::MassRate, Unit::MassRate::PoundPerHour>::FromStandard<NumericType>     },
+})
 };
 
 template <typename NumericType>
-inline const std::
-    map<Unit::MassRate, std::function<void(NumericType* const values, const std::size_t size)>>
-        MapOfConversionsToStandard<Unit::MassRate, NumericType>{
+inline constexpr auto MapOfConversionsToStandard<Unit::MassRate, NumericType>{
+  MakeConversionTable<Unit::MassRate, NumericType>({
           {Unit::MassRate::KilogramPerSecond,
            Conversions<Unit::MassRate, Unit::MassRate::KilogramPerSecond>::ToStandard<NumericType>},
           {Unit::MassRate::GramPerSecond,
@@ -463,6 +462,7 @@ inline const std::
            Conversions<Unit::MassRate, Unit::MassRate::SlinchPerHour>::ToStandard<NumericType>    },
           {Unit::MassRate::PoundPerHour,
            Conversions<Unit::MassRate, Unit::MassRate::PoundPerHour>::ToStandard<NumericType>     },
+})
 };
 
 }  // namespace Internal
